@@ -226,41 +226,11 @@ def known_match(known, prop, violation, steps):
 
 
 # ---------------------------------------------------------------- history checks
-def history_check(prop, tier, seed, jobs, nruns=None, force=None, only=None):
+def triage(prop, seed, results, tier):
+    """Match violating runs against the known findings, minimise and write replay files for
+    the first unlisted ones.  Returns (violating, unlisted, known_hits, output lines)."""
     from . import runner, shrink
 
-    t_start = time.time()
-    src = assert_repo_tree()
-    n = nruns or RUNS[prop][tier]
-    runs = list(range(n))
-    if only is not None:
-        runs = list(only)
-        n = len(runs)
-    print(f"SEED {seed} property={prop} tier={tier} runs={n} jobs={jobs} shapepy={src}")
-    sys.stdout.flush()
-    results, errors = run_batch(prop, seed, runs, jobs, force)
-    harness_errors = list(errors)
-    for r in results:
-        if r["error"]:
-            harness_errors.append(f"run {r['run']}: {r['error'][-800:]}")
-    if len(results) != n:
-        harness_errors.append(f"only {len(results)} of {n} runs returned")
-    # restart fault (C10): same runs, new interpreter, other hash seed
-    restart_checked = 0
-    restart_mismatch = []
-    if prop == "C10" and results:
-        every = RESTART_EVERY[tier]
-        sel = [r["run"] for r in results if r["run"] % every == (seed % every) and not r["error"]]
-        hashseed = 1 + (seed * 7919 + 12345) % 4294967290
-        digs, rerr = restart_digests(prop, seed, sel, jobs, hashseed, force)
-        harness_errors.extend(rerr)
-        by_run = {r["run"]: r for r in results}
-        for run in sel:
-            if run in digs:
-                restart_checked += 1
-                if digs[run] != by_run[run]["digest"]:
-                    restart_mismatch.append(run)
-    # violations
     known = load_known()
     viol = [r for r in results if r["violation"]]
     new_viol, known_hits = [], {}
@@ -296,6 +266,45 @@ def history_check(prop, tier, seed, jobs, nruns=None, force=None, only=None):
         out_lines.append(f"  run {r['run']}: {v['invariant']} at step {v['step']}: {v['details'][:300]}")
         out_lines.append(f"  replay in a fresh process: {'reproduced' if reproduced else 'NOT reproduced (exit %d)' % code}")
         out_lines.append(f"VIOLATION property={prop} replay={path}")
+    return viol, new_viol, known_hits, out_lines
+
+
+def history_check(prop, tier, seed, jobs, nruns=None, force=None, only=None):
+    from . import runner, shrink
+
+    t_start = time.time()
+    src = assert_repo_tree()
+    n = nruns or RUNS[prop][tier]
+    runs = list(range(n))
+    if only is not None:
+        runs = list(only)
+        n = len(runs)
+    print(f"SEED {seed} property={prop} tier={tier} runs={n} jobs={jobs} shapepy={src}")
+    sys.stdout.flush()
+    results, errors = run_batch(prop, seed, runs, jobs, force)
+    harness_errors = list(errors)
+    for r in results:
+        if r["error"]:
+            harness_errors.append(f"run {r['run']}: {r['error'][-800:]}")
+    if len(results) != n:
+        harness_errors.append(f"only {len(results)} of {n} runs returned")
+    # restart fault (C10): same runs, new interpreter, other hash seed
+    restart_checked = 0
+    restart_mismatch = []
+    if prop == "C10" and results:
+        every = RESTART_EVERY[tier]
+        sel = [r["run"] for r in results if r["run"] % every == (seed % every) and not r["error"]]
+        hashseed = 1 + (seed * 7919 + 12345) % 4294967290
+        digs, rerr = restart_digests(prop, seed, sel, jobs, hashseed, force)
+        harness_errors.extend(rerr)
+        by_run = {r["run"]: r for r in results}
+        for run in sel:
+            if run in digs:
+                restart_checked += 1
+                if digs[run] != by_run[run]["digest"]:
+                    restart_mismatch.append(run)
+    # violations
+    viol, new_viol, known_hits, out_lines = triage(prop, seed, results, tier)
     for run in restart_mismatch[:3]:
         r = next(x for x in results if x["run"] == run)
         path = write_replay(prop, seed, run, r["steps"],
